@@ -76,6 +76,10 @@ var alphabet = []instr{
 	{"LD A,n", func(r *rig.Rng) []byte { return []byte{0x3e, r.U8()} }, 2, false},
 	{"LDH (IF),A", func(*rig.Rng) []byte { return []byte{0xe0, 0x0f} }, 3, false},
 	{"LDH (IE),A", func(*rig.Rng) []byte { return []byte{0xe0, 0xff} }, 3, false},
+	// a conditional jump (taken or not, as the flags happen to be; displacement 0) and a
+	// prefixed instruction: boundaries like any other
+	{"JR cc,+0", func(r *rig.Rng) []byte { return []byte{r.Pick8([]uint8{0x20, 0x28, 0x30, 0x38}), 0x00} }, 3, false},
+	{"SWAP A", func(*rig.Rng) []byte { return []byte{0xcb, 0x37} }, 2, false},
 }
 
 func run(c *rig.Ctx) {
@@ -241,7 +245,7 @@ func run(c *rig.Ctx) {
 			c.Sample(map[string]any{"class": "sequence", "sequence": names, "code": fmt.Sprintf("% X", code)})
 		}
 	})
-	c.MarkExhaustive(fmt.Sprintf("all instruction sequences of length <= %d over the 8-instruction alphabet (request schedules sampled per sequence at every cycle offset)", L))
+	c.MarkExhaustive(fmt.Sprintf("all instruction sequences of length <= %d over the 10-instruction alphabet (request schedules sampled per sequence at every cycle offset)", L))
 	c.Count("dispatches_observed", disp)
 	c.Count("ei_retired", eis)
 	c.Count("reti_retired", retis)
